@@ -35,12 +35,13 @@ TRUSTED = [
     "C11: socket.inet_ntop's text formatting (libc) — the model stops at the 4/16 packed bytes handed to it; the harness maps the returned text back with socket.inet_pton and requires the text to be exactly libc's inet_ntop spelling of those bytes (a different spelling of the same address, e.g. '::ffff:7f00:1', is a row that was not promised)",
     "C11: kernel-side renderers of /proc/net/{tcp,tcp6,udp,udp6,unix} and of the socket:[ino] links in Spec/C11.lean (transcribed from get_tcp4_sock/get_tcp6_sock/udp4_format_sock/unix_seq_show); validated on every run against an independent printf-style Python renderer (byte equality on every generated world)",
     "C11: text-mode reading is modelled as identity on bytes (PYTHONUTF8=1 + surrogateescape, newline='\\n'); str.split() = ASCII-whitespace split; int(s,16)/int(s) on plain digit strings; listing order of /proc and /proc/<pid>/fd is an input of the model",
+    "C11: a big-endian host is emulated by _pslinux.LITTLE_ENDIAN = False over files rendered with the address words in network order (the kernel-side convention itself is checked against the running little-endian kernel only: live_socket_check)",
     "C11: OSError(errno) raised by the injected os.readlink/os.listdir is what the kernel call would raise for that errno (Python's errno -> exception-class mapping is exercised for real); a Python without IPv6 is emulated by socket.inet_ntop raising ValueError for AF_INET6 and socket.has_ipv6 = False",
 ]
 MANIFEST = {
-    "level_text": "Machine-checked Lean 4 proofs over a transcription of _pslinux.NetConnections (decode_address, process_inet, process_unix, get_proc_inodes, get_all_inodes, retrieve), wrap_exceptions around Process.net_connections and the front-end kind check: address round-trip for EVERY IPv4/IPv6 address and port on both endiannesses against the kernel's %08X-per-host-order-word rendering (C11_addr_roundtrip_v4/v6, C11_port_zero_empty), the 11-state status map and both kind tables by `decide` over the translator-generated tables (C11_status_map, C11_kind_table, C11_kind_files), unknown kind -> ValueError, exact parsing of every rendered tcp/udp/unix line incl. UNIX names with blanks and carriage returns (C11_inet_line, C11_unix_line, C11_unix_name_with_cr), owner lookup for every descriptor table (C11_owner), the resulting rows/per-process statements (C11_rows_exact, C11_per_process_only_own) and their NUMBER incl. any number of sockets sharing inode 0 (C11_rows_count, C11_rows_count_inode0); with every errno outcome of os.listdir/os.readlink explicit: a descriptor or process that cannot be inspected (ENOENT, ESRCH, EINVAL, ENAMETOOLONG, EACCES, EPERM) contributes no holder and never fails the system-wide call (C11_scan_never_fails, C11_scan_no_holder, C11_scan_process, C11_scan_process_error), other errnos propagate (proved: C11_scan_fatal_errno_propagates); on a Python that cannot format IPv6 addresses the rows needing an IPv6 text are left out and IPv4/UNIX rows are unaffected (C11_noipv6_rows, C11_noipv6_left_out, C11_noipv6_v4_unix_unaffected); the same for the per-process form (C11_noipv6_rows_process); WHICH rows are returned, exactly (C11_rows_which: one row per holder for UNIX, the FIRST holder in listing order for TCP/UDP — C11_inet_first_holder, a characterisation: the statement allows any holder), and from it the relation between the two forms (C11_system_rows_in_process for every world; C11_process_rows_in_system / C11_sys_proc_consistent when no TCP/UDP socket of the process is held by an earlier-listed one; the unrestricted equality is refuted on a forked listener, C11_sys_proc_shared_inet_counterexample); proved counterexamples for the two pre-fix behaviours (UNIX path with a blank, UNIX socket shared by two processes) and for narrowed `except` clauses (C11_scan_esrch_counterexample, C11_scan_eperm_counterexample). Tied to the code by translator facts (both kind tables, TCP_STATUSES, family/type constants, endianness, tuple-unpack indices, the path expression, the inode-merge statement, the exception classes / errno names of the `except` clauses of get_proc_inodes and get_all_inodes, the shape of the _Ipv6UnsupportedError try/except in decode_address and process_inet) feeding cfg_good, and by a differential run of the real front-end functions over a fake procfs with per-path fault injection into os.readlink/os.listdir, a patched socket.inet_ntop/has_ipv6, and every query made in several call modes (plain, oneshot fresh/warm, as_dict, process_iter object, second call, deprecated alias; system-wide while oneshot blocks are open); the system-wide and the per-process answers of the real code for one kind are also compared with each other (family consist).",
+    "level_text": "Machine-checked Lean 4 proofs over a transcription of _pslinux.NetConnections (decode_address, process_inet, process_unix, get_proc_inodes, get_all_inodes, retrieve), wrap_exceptions around Process.net_connections and the front-end kind check: address round-trip for EVERY IPv4/IPv6 address and port on both endiannesses against the kernel's %08X-per-host-order-word rendering (C11_addr_roundtrip_v4/v6, C11_port_zero_empty), the 11-state status map and both kind tables by `decide` over the translator-generated tables (C11_status_map, C11_kind_table, C11_kind_files), unknown kind -> ValueError, exact parsing of every rendered tcp/udp/unix line incl. UNIX names with blanks and carriage returns (C11_inet_line, C11_unix_line, C11_unix_name_with_cr), owner lookup for every descriptor table (C11_owner), the resulting rows/per-process statements (C11_rows_exact, C11_per_process_only_own) and their NUMBER incl. any number of sockets sharing inode 0 (C11_rows_count, C11_rows_count_inode0); with every errno outcome of os.listdir/os.readlink explicit: a descriptor or process that cannot be inspected (ENOENT, ESRCH, EINVAL, ENAMETOOLONG, EACCES, EPERM) contributes no holder and never fails the system-wide call (C11_scan_never_fails, C11_scan_no_holder, C11_scan_process, C11_scan_process_error), other errnos propagate (proved: C11_scan_fatal_errno_propagates); on a Python that cannot format IPv6 addresses the rows needing an IPv6 text are left out and IPv4/UNIX rows are unaffected (C11_noipv6_rows, C11_noipv6_left_out, C11_noipv6_v4_unix_unaffected); the same for the per-process form (C11_noipv6_rows_process); WHICH rows are returned, exactly (C11_rows_which: one row per holder for UNIX, the FIRST holder in listing order for TCP/UDP — C11_inet_first_holder, a characterisation: the statement allows any holder), and from it the relation between the two forms (C11_system_rows_in_process for every world; C11_process_rows_in_system / C11_sys_proc_consistent when no TCP/UDP socket of the process is held by an earlier-listed one; the unrestricted equality is refuted on a forked listener, C11_sys_proc_shared_inet_counterexample); proved counterexamples for the two pre-fix behaviours (UNIX path with a blank, UNIX socket shared by two processes) and for narrowed `except` clauses (C11_scan_esrch_counterexample, C11_scan_eperm_counterexample). Tied to the code by translator facts (both kind tables, TCP_STATUSES, family/type constants, endianness, tuple-unpack indices, the path expression, the inode-merge statement, the exception classes / errno names of the `except` clauses of get_proc_inodes and get_all_inodes, the shape of the _Ipv6UnsupportedError try/except in decode_address and process_inet) feeding cfg_good, and by a differential run of the real front-end functions over a fake procfs with per-path fault injection into os.readlink/os.listdir, a patched socket.inet_ntop/has_ipv6, and every query made in several call modes (plain, oneshot fresh/warm, as_dict, process_iter object, second call, deprecated alias; system-wide while oneshot blocks are open); the system-wide and the per-process answers of the real code for one kind are also compared with each other (family consist). Round 3 (audit-driven): BOTH endianness branches of decode_address are translator facts (ntopCalls -> cfg_good.v4RevLE/v4RevBE/v6SwapLE/v6SwapBE) and are both executed by the differential run (family addresses_be + an exhaustive sweep with _pslinux.LITTLE_ENDIAN patched to False over files rendered as a big-endian kernel prints them, driver littleEndian := false); the statement lists of every transcribed function (decode_address, get_proc_inodes, get_all_inodes, process_inet, process_unix, retrieve, the readlink wrapper, _check_conn_kind and its call sites incl. the default kind='inet') are facts compared in cfg_shapes_good; psutil's two documented decode_address vectors are theorems about the literal text (C11_docstring_vectors, + big-endian) and the renderer is compared with the running kernel's line for sockets the harness binds itself (and the real code over the real /proc with getsockname()); 'once per socket' is proved for distinguishable sockets only and REFUTED in general (C11_rows_count_twins / C11_rows_count_Full_false: two ownerless unbound UNIX sockets give one row — rows are value tuples collected in a set); the driver's acceptance test and its well-formedness gate are proved to be the specification's (C11_accepts_iff, C11_wf_iff), unknown kind -> ValueError also for the errno-explicit functions (C11_unknown_kind_ValueError_E), IPv6-less Python x failing descriptors (C11_noipv6_scan). CHARACTERISATIONS, not promises derived from the statement (which is silent there): which errnos count as 'cannot be inspected', that one denied readlink hides the whole process (viewProc), that an IPv6 socket with both ports 0 is still reported on an IPv6-less Python (needsV6Text) — C11_scan_*, C11_noipv6_* describe what the code does under a reading fitted to it; likewise C11_rows_which / C11_inet_first_holder.",
     "level_note": "Trusted: Lean kernel + {propext, Classical.choice, Quot.sound}; translator; correspondence harness (incl. the fault-injection shims); inet_ntop text formatting (libc); kernel renderers (validated against an independent printf renderer each run); text decoding modelled as identity on bytes; '\\n' inside UNIX names outside the domain; zombie / vanished-process handling of wrap_exceptions (C03) fixed to 'stat present, not a zombie'.",
-    "technique": "Lean 4 round-trip proofs (render -> parse) by structural induction + simulation of the errno-explicit model by the error-free core + `decide` over generated tables + translator-fed proof obligation + differential correspondence over a fake procfs with fault injection, call modes and an exhaustive kind x (family,type) x mode sweep",
+    "technique": "Lean 4 round-trip proofs (render -> parse) by structural induction + simulation of the errno-explicit model by the error-free core + `decide` over generated tables + translator-fed proof obligations (semantic facts in cfg_good, whole-function statement lists in cfg_shapes_good) + differential correspondence over a fake procfs with fault injection, both endiannesses, call modes (incl. the documented default kind) and an exhaustive kind x (family,type) x mode sweep + live-kernel check of the renderer",
     "design_ref": "DESIGN.md §5 C11",
 }
 ASSUMPTIONS = [
@@ -48,6 +49,9 @@ ASSUMPTIONS = [
     "a TCP/UDP socket held through several descriptors is reported once with one of its holders (the statement asks one row per holder only for UNIX sockets)",
     "a readlink denied with EACCES/EPERM concerns the whole process (the kernel checks ptrace access to the task): such a process counts as not inspectable, like one whose fd directory cannot be listed",
     "errnos other than ENOENT/ESRCH/EINVAL/ENAMETOOLONG/EACCES/EPERM (readlink) and ENOENT/ESRCH/EACCES/EPERM (listdir) are genuine I/O failures: the promise is silent, the model says they propagate (implementation vs model)",
+    "rows are compared as VALUES: two sockets whose rows are equal in every field (same class, addresses, state/name, and holder or both without visible holder — e.g. the unbound UNIX sockets of other users) appear as ONE row; 'every socket once' is proved under Distinct only (C11_rows_count) and refuted without it (C11_rows_count_Full_false)",
+    "the readlink/listdir errno classes, the whole-process effect of a denied readlink and the port-0 rule on an IPv6-less Python are characterisations of the code (the statement says nothing about them); outside World.WF (TCP state not 1..11, UNIX type > 9, a link text starting with 'socket:[' that is not a socket) the driver answers 'unspecified' and only implementation vs model is compared",
+    "_pslinux.readlink's NUL / ' (deleted)' stripping is pinned by its statement list (cfg_shapes_good) but not modelled: it is the identity on the 'socket:[N]' texts the kernel produces",
 ]
 
 _REAL_NTOP = socket.inet_ntop          # captured before any injection
